@@ -286,9 +286,9 @@ LateTag(tag, j) == Append(tag, LateBase + j)
 LateStart(tag, j) ==
     /\ phase = "late" /\ runs[tag].st = "done"
     /\ j \in 1..Len(runs[tag].keeps) /\ LateTag(tag, j) \notin DOMAIN runs
-    /\ Sched = "det" => AllRunsDone
-    \* bound of the model: at most two runs are active when a kept continuation is started
-    /\ Cardinality({t \in DOMAIN runs : runs[t].st # "done"}) < 2
+    \* bound of the model: kept continuations are run one at a time, in any order (what a run logs does
+    \* not depend on what runs beside it; the driver adds concurrent traffic on the same sequences)
+    /\ AllRunsDone
     /\ LET K == runs[tag].keeps[j]
        IN runs' = [t \in DOMAIN runs \cup {LateTag(tag, j)} |->
                      IF t = LateTag(tag, j)
@@ -366,9 +366,14 @@ InOrder ==
 \* every time a continuation is run it executes the same remaining rules
 ContinuationReusable == reuseOK
 
-\* after the call: nothing is left running
-Quiescent == phase = "done" =>
-    \A tag \in DOMAIN runs : runs[tag].st = "done" /\ runs[tag].stack = <<>> /\ runs[tag].pend = <<>>
+\* after the call has returned nothing of it is left running (runs of kept continuations are runs of
+\* their own: they start later); at the very end nothing at all
+OfTheCall(tag) == \A i \in 1..Len(tag) : tag[i] < LateBase
+Quiescent ==
+    /\ phase \in {"late", "done"} =>
+          \A tag \in DOMAIN runs : OfTheCall(tag) =>
+              runs[tag].st = "done" /\ runs[tag].stack = <<>> /\ runs[tag].pend = <<>>
+    /\ phase = "done" => \A tag \in DOMAIN runs : runs[tag].st = "done"
 
 C06Inv == ActionNeedsMatch /\ ShortCircuit /\ ErrorAborts /\ InOrder /\ ContinuationReusable /\ Quiescent
 
